@@ -26,6 +26,9 @@ pub enum Cmd {
     MapEffect(Box<Cmd>, u8),
     /// `Command::from(c.into())`
     FromInto(Box<Cmd>),
+    /// `c.map_event(identity closure that captured a drop-counted value at build time)`:
+    /// the value must be dropped when the mapping task ends or is cancelled, started or not
+    Guarded(Box<Cmd>, u32),
     /// records `cmd.abort_handle()` under the handle id
     Abortable(Box<Cmd>, u32),
     /// `Command::new(|ctx| interpreter(script))`
@@ -97,6 +100,7 @@ impl Cmd {
             Cmd::MapEvent(c, _)
             | Cmd::MapEffect(c, _)
             | Cmd::FromInto(c)
+            | Cmd::Guarded(c, _)
             | Cmd::Abortable(c, _) => 1 + c.size(),
             Cmd::Async(s) => 1 + s.size(),
         }
@@ -111,6 +115,7 @@ impl Cmd {
             Cmd::MapEvent(c, _)
             | Cmd::MapEffect(c, _)
             | Cmd::FromInto(c)
+            | Cmd::Guarded(c, _)
             | Cmd::Abortable(c, _) => 1 + c.depth(),
             Cmd::Async(s) => 1 + s.depth(),
         }
@@ -174,6 +179,10 @@ impl Cmd {
             }
             Cmd::FromInto(c) => {
                 out.push("FromInto");
+                c.constructors(out)
+            }
+            Cmd::Guarded(c, _) => {
+                out.push("Guarded");
                 c.constructors(out)
             }
             Cmd::Abortable(c, _) => {
@@ -255,6 +264,9 @@ pub enum Action {
     /// the holder of the command extends it from outside: `cmd = cmd.and(other)` (hosts that
     /// hold the command object only)
     Extend(Box<Cmd>),
+    /// several shell actions (resolve / drop) before the command or core runs again; only
+    /// generated when the actions commute in the reference model
+    Batch(Vec<Action>),
 }
 
 #[derive(Serialize, Deserialize, Clone, Debug, PartialEq, Eq)]
